@@ -3,6 +3,7 @@
 A model is a JSON-serialisable dict (Appendix B of DESIGN.md).  `build(rng, **knobs)` draws one;
 families (see families.py) are knob presets that switch on the dimensions a property depends on."""
 import math
+import random
 
 AXIS_POOL = [("wght", "Weight", 100, 400, 900), ("wdth", "Width", 50, 100, 200), ("opsz", "Optical Size", 8, 14, 144),
              ("slnt", "Slant", -15, 0, 0), ("XTRA", "Extra", 0, 50, 100)]
@@ -459,6 +460,24 @@ def add_kerning(model, rng, pairs=20, groups=True, divergent=0.0, partial=0.0, z
             kern = {}
         m["groups"] = {k: v for k, v in gr.items() if v}
         m["kerning"] = kern
+    # exceptions that restate what they override: (a, @G2) with the value of (@G1, @G2) in every master, next to a
+    # (@G1, b) exception with b in @G2 - the glyph-group pair still outranks the group-glyph one for (a, b)
+    r2 = random.Random(rng.random())
+    if groups and exceptions:
+        cc = [(a, b) for a in base for b in base[a] if a.startswith("public.kern1.") and b.startswith("public.kern2.")]
+        r2.shuffle(cc)
+        for g1, g2 in cc[:2]:
+            if not base_groups.get(g1) or not base_groups.get(g2):
+                continue
+            a, b = r2.choice(base_groups[g1]), r2.choice(base_groups[g2])
+            if any(b in m["kerning"].get(a, {}) for m in full):
+                continue
+            other = r2.choice([-1, 1]) * r2.randint(5, 90)
+            for mi, m in enumerate(full):
+                k = m["kerning"]
+                if g2 in k.get(g1, {}) and g1 in m["groups"] and g2 in m["groups"]:
+                    k.setdefault(a, {})[g2] = k[g1][g2]
+                    k.setdefault(g1, {})[b] = other + (r2.randint(-20, 20) if mi else 0)
     return model
 
 
@@ -536,6 +555,18 @@ def hostile_axes(model, rng):
         seen.add(key)
         keep.append(mm)
     model["masters"] = keep
+    if rng.random() < 0.3:
+        # an axis on which nothing varies (every master at the same place), often listed before a mapped axis
+        used = {a["tag"] for a in model["axes"]}
+        tag, name, lo, df, hi = rng.choice([x for x in AXIS_POOL if x[0] not in used])
+        v = rng.choice([lo, df, hi])
+        d = v if rng.random() < 0.5 else round(v * 1.5 + 7, 1)
+        ax = {"tag": tag, "name": name, "min": v, "default": v, "max": v, "map": [] if d == v else [[v, d]], "hidden": False}
+        model["axes"].insert(rng.randrange(len(model["axes"]) + 1) if rng.random() < 0.4 else 0, ax)
+        for mm in model["masters"]:
+            mm["design_loc"] = {a["tag"]: (d if a["tag"] == tag else mm["design_loc"][a["tag"]]) for a in model["axes"]}
+        for inst in model["instances"]:
+            inst["user_loc"] = {a["tag"]: (v if a["tag"] == tag else inst["user_loc"][a["tag"]]) for a in model["axes"]}
     return model
 
 
